@@ -63,7 +63,9 @@ def cpp_specs(ctx, files_quick=7, per_file=80, rand_files_quick=2, rand_per_file
                            ['u8<>', 'Gr4'], ['u16<@>', 'Gr1'], ['Dy4', 'u8', 'Gr4'],
                            # optionals whose 8-byte alignment is only visible through one or two typedef levels
                            ['u8', 'TU64*', 'u8'], ['TTU64*', 'u16'], ['u8', 'TFx8*'], ['TTFx8*', 'TTU64*', 'u8'],
-                           ['u8', 'TTU64', 'u8'], ['u16', 'TTU64[2]', 'u8<>', 'TTU64*']]})
+                           ['u8', 'TTU64', 'u8'], ['u16', 'TTU64[2]', 'u8<>', 'TTU64*'],
+                           # optionals whose value type has a C++ object size different from its wire size
+                           ['Un4*', 'u8'], ['u8', 'Un8*', 'u16'], ['Un12*'], ['u8', 'FxO*', 'u8'], ['Un4*', 'FxO*', 'u8<>']]})
     nrf = ctx.pick(rand_files_quick, rand_files_thorough)
     for i in range(nrf):
         seeds = [ctx.seed * 100000 + 7000 + i * rand_per_file + k for k in range(rand_per_file)]
